@@ -1,0 +1,5 @@
+//go:build !verif
+
+package smx509
+
+func verifGate(string) {}
